@@ -334,12 +334,14 @@ def work(p):
         src_a = VERSION_A.replace("{id}", str(id_))
         open(os.path.join(sd, mname + ".py"), "w").write(src_a)
         open(os.path.join(sd, f"vfstalelib_{id_}.py"), "w").write("class LibCls:\n    pass\n")
-        open(os.path.join(sd, f"vfstalepkg_{id_}", "__init__.py"), "w").write("")
+        # the enclosing packages bind classes of the same names as their submodules do (other classes: what a submodule's row names is
+        # not what the package has)
+        open(os.path.join(sd, f"vfstalepkg_{id_}", "__init__.py"), "w").write("class SubCls:\n    pass\n\n\nclass DeepCls:\n    pass\n")
         open(os.path.join(sd, f"vfstalepkg_{id_}", "sub.py"), "w").write("class SubCls:\n    pass\n")
         open(os.path.join(sd, f"vfstalelib_{id_}_v2.py"), "w").write("class LibCls2:\n    pass\n")
         open(os.path.join(sd, f"vfstalepkg_{id_}", "sub_v2.py"), "w").write("class SubCls2:\n    pass\n")
         os.makedirs(os.path.join(sd, f"vfstalepkg_{id_}", "mid"))
-        open(os.path.join(sd, f"vfstalepkg_{id_}", "mid", "__init__.py"), "w").write("")
+        open(os.path.join(sd, f"vfstalepkg_{id_}", "mid", "__init__.py"), "w").write("class DeepCls:\n    pass\n")
         open(os.path.join(sd, f"vfstalepkg_{id_}", "mid", "deep.py"), "w").write("class DeepCls:\n    pass\n\n\ndef deep_fn(a):\n    return a\n")
         sys.path.insert(0, sd)
         importlib.invalidate_caches()
@@ -404,6 +406,12 @@ def work(p):
             write_db(db1, [r for r, _, _ in seq])
             write_db(db2, [])
             res.count("target_removed_cases")
+        prefix = case.get("qual_prefix") if not removed_target else None
+        if prefix:
+            # the command is given `<module>:<qualname prefix>`: a prefix of stored qualified names, not necessarily a name the module (still) has
+            target = f"{mname}:{prefix}"
+            seq = [(r, st, kd) for r, st, kd in seq if r.qualname.startswith(prefix)]
+            res.count("qualname_prefix_cases")
         nstale = len({(r.module, r.qualname, r.arg_types, r.return_type, r.yield_type) for r, st, _ in seq if st})
         nvalid = sum(1 for _, st, _ in seq if not st)
         for cmd in case["cmds"]:
@@ -492,6 +500,11 @@ def run(ck):
         cid += 1
         cases.append({"id": f"{ck.seed}_{cid}", "seed": f"C10:{ck.seed}:{cid}", "kinds": [], "valid": ["keep1", "keep2"], "cmds": ["stub", "stub -v", "apply"],
                       "dup": False, "target_removed": True if j % 2 == 0 else "dotted"})
+    # `<module>:<prefix>` targets: prefixes that name no function (any more) but select stored rows, live and stale ones
+    for j, (pfx, ks) in enumerate([("keep", kinds[:2]), ("K.keep", kinds[2:4]), ("uses_", kinds), ("gone", kinds), ("to_", kinds), ("u", kinds[:5])] * (1 if quick else 4)):
+        cid += 1
+        cases.append({"id": f"{ck.seed}_{cid}", "seed": f"C10:{ck.seed}:{cid}", "kinds": ks, "valid": list(VALID), "cmds": ["stub", "stub -v", "apply"],
+                      "dup": j % 2 == 1, "qual_prefix": pfx})
     n = core.NPROC
     for r in core.pmap("vf.props.c10:work", [{"cases": cases[i::n]} for i in range(n)], timeout=3400):
         ck.merge(r)
@@ -503,6 +516,7 @@ def run(ck):
     ck.need("nothing_decodable_cases", 3)
     ck.need("target_removed_cases", 1)
     ck.need("target_parent_package_removed_cases", 1)
+    ck.need("qualname_prefix_cases", 5)
     ck.need("verbose_warnings_seen", 30)
     ck.need("rows_disagreeing_on_parameter_names", 20)
     ck.need("cases_with_local_scope_rows", 10)
